@@ -268,11 +268,12 @@ def decode(M, ins):
         return ('gep', dst, bt, base, idxs)
     if opw == 'load':
         rest = body[4:].strip()
-        if rest.startswith('atomic'): raise Unsupported("atomic load")
+        if rest.startswith('atomic'): rest = rest[6:].strip()          # one thread: an atomic load is a load ("load atomic T, T* p ordering, align n")
         if rest.startswith('volatile'): rest = rest[8:].strip()
         parts = split_top(rest)
         t, _ = M.parse_type(parts[0]); pt, i = M.parse_type(parts[1])
-        return ('load', dst, t, parts[1][i:].strip())
+        ptr = re.sub(r'\s+(syncscope\("[^"]*"\)\s+)?(unordered|monotonic|acquire|seq_cst)$', '', parts[1][i:].strip())
+        return ('load', dst, t, ptr)
     if opw == 'store':
         rest = body[5:].strip()
         if rest.startswith('atomic'): raise Unsupported("atomic store")
